@@ -932,6 +932,9 @@ func (s *State) evalForInteger(fe *ast.ForExpression, start *int64, end int64, n
 			return s.Errorf("for loop register %s shouldn't be modified inside the loop", name)
 		}
 		ptr = register.Ptr()
+		// Release on every way out of the loop (break, return, error, panic), not only the normal end,
+		// or the environment (the long lived top level one in particular) runs out of registers.
+		defer s.env.ReleaseRegister(register)
 	}
 	for i := startValue; i < endValue; i++ {
 		if s.NoReg && name != "" {
@@ -959,9 +962,6 @@ func (s *State) evalForInteger(fe *ast.ForExpression, start *int64, end int64, n
 		default:
 			lastEval = nextEval
 		}
-	}
-	if ptr != nil {
-		s.env.ReleaseRegister(register)
 	}
 	return lastEval
 }
